@@ -3,12 +3,12 @@
 package eng
 
 import (
-	_ "unsafe" // go:linkname
 	"fmt"
 	"runtime"
 	"runtime/debug"
 	"sort"
 	"strings"
+	_ "unsafe" // go:linkname
 
 	"verif/sim"
 )
@@ -53,7 +53,16 @@ type Run struct {
 type stop struct{}
 
 // NewRun prepares a run.
+// RunStartHooks are called at the start of every run: engines register the
+// reset of whatever package-level state they keep during a run, so that a run
+// is a function of its tape and never of the runs the process executed before
+// (a replay in a fresh process must see what the batch run saw).
+var RunStartHooks []func()
+
 func NewRun(prop string, t *sim.Tape, tier string, detail bool) *Run {
+	for _, h := range RunStartHooks {
+		h()
+	}
 	r := &Run{Prop: prop, T: t, Tier: tier, Detail: detail}
 	r.Res = &Result{Probes: map[string]int64{}, Faults: map[string]int64{}}
 	r.D.Reset()
